@@ -423,13 +423,16 @@ def s_builder_case(draw, tier, max_n=None, jw_ok=True, pauli_ok=True, **term_kw)
     return case
 
 
-def pick_dtype(draw, real_ok=True):
-    return draw(st.sampled_from([None, None, "complex128", "complex64"] + (["float64", "float32"] if real_ok else [])))
+def pick_dtype(draw, tier="thorough"):
+    # (every dtype is a separate numba specialisation of every kernel, ~10 s each on a cold cache:
+    #  single precision only in the thorough tier)
+    return draw(st.sampled_from([None, None, "complex128", "float64"] + (["complex64", "float32"] if tier != "quick" else [])))
 
 
 def resolve_dtype(b, ctx, want):
     """explicit real dtypes are only in the domain of provably real operators."""
-    if want in ("float64", "float32") and not ctx.raw_real:
+    # (b.iscomplex: a real product such as z*x is stored as 1j*'y', which quimb itself then treats as complex)
+    if want in ("float64", "float32") and (not ctx.raw_real or b.iscomplex):
         want = {"float64": "complex128", "float32": "complex64"}[want]
     return want
 
@@ -444,7 +447,7 @@ def tol_of(dt):
 @st.composite
 def s_dense(draw, tier):
     case = draw(s_builder_case(tier))
-    case["dtype"] = pick_dtype(draw)
+    case["dtype"] = pick_dtype(draw, tier)
     case["ctor_dtype"] = draw(st.sampled_from([None, None, "complex128"]))
     case["parallel"] = draw(st.sampled_from([False, False, 2, True]))
     if case["how"] != "ctor" and draw(st.integers(0, 3)) == 0:
@@ -473,7 +476,7 @@ STYPES = ["coo", "csr", "csc", "bsr", "lil", "dok", "dia"]
 @st.composite
 def s_sparse(draw, tier):
     case = draw(s_builder_case(tier))
-    case["dtype"] = pick_dtype(draw)
+    case["dtype"] = pick_dtype(draw, tier)
     case["stype"] = draw(st.sampled_from(STYPES))
     case["parallel"] = draw(st.sampled_from([False, False, 2]))
     return case
@@ -508,7 +511,7 @@ def make_vec(seed, d, dt, cols=None):
 @st.composite
 def s_matvec(draw, tier):
     case = draw(s_builder_case(tier))
-    case["dtype"] = pick_dtype(draw)
+    case["dtype"] = pick_dtype(draw, tier)
     case["act"] = draw(st.sampled_from(["matvec", "matvec_dtype", "matvec_out", "matvec_out_dirty", "linop_at",
                                         "linop_matvec", "linop_matmat"]))
     case["parallel"] = draw(st.sampled_from([False, False, 2, True]))
@@ -571,7 +574,7 @@ def run_matvec(case):
 @st.composite
 def s_mpo(draw, tier):
     case = draw(s_builder_case(tier, max_terms=6))
-    case["dtype"] = pick_dtype(draw)
+    case["dtype"] = pick_dtype(draw, tier)
     return case
 
 
@@ -596,7 +599,7 @@ def s_local(draw, tier):
     route = draw(st.sampled_from(["terms", "terms", "ham"]))
     case = draw(s_builder_case(tier, max_loc=2 if route == "ham" else 4))
     case["route"] = route
-    case["dtype"] = pick_dtype(draw)
+    case["dtype"] = pick_dtype(draw, tier)
     if route == "ham":
         # LocalHamGen holds pair terms only: make every site coupled by construction, keep strings 2-local
         n = case["space"]["n"]
@@ -1749,7 +1752,7 @@ SUBCHECKS = [
              rule="every rank of every sector of none/Z2/U1 (nsites<=8 quick, 10 thorough) and U1U1 (<=4+4 / 5+5) through HilbertSpace: size == formula, unrank lexicographic and in sector, rank(unrank(r)) == r, onto; nt: sector size >= 2"),
     SubCheck("unrank_kernels", run_unrank_kernels, enum=enum_rank, exhaustive=True, shards=(1, 2),
              rule="configcore.rank_to_flatconfig(r, sector, symmetry) over the same exhaustive grid"),
-    SubCheck("rank_kernels", run_rank_kernels, enum=enum_rank, exhaustive=True, shards=(1, 2),
+    SubCheck("rank_kernels", run_rank_kernels, enum=enum_rank, exhaustive=True, shards=(1, 2), min_accept=0.0,  # wholly behind C19-c while it is open
              rule="configcore.flatconfig_to_rank / rank_to_flatconfig dispatchers over the same exhaustive grid"),
     SubCheck("rank_labelled", run_rank_labelled, s_rank_labelled, examples=(500, 4000), shards=(1, 4),
              rule="rank<->config for 6 labellings x 7 orderings x species (blocked/interleaved) x sector spellings x mixed local dimensions, all ranks; nt: size>=2 and (non-identity ordering or a symmetry)"),
